@@ -231,6 +231,37 @@ def fill_errvals(prog, errs):
     return ' ; '.join(out)
 
 
+def seqbuf(ctx):
+    """coordinate-sequence buffer calls across EVERY source x destination layout (XY, XYZ, XYM, XYZM): the call returns its result
+    (each slot = what getOrdinate reports for that dimension, NaN for a dimension the sequence lacks) or its error value; it never
+    writes outside the buffer and never changes the source sequence.  Under ASan."""
+    exe = os.path.join(BUILD, 'bin', 'c12_seqbuf_asan')
+    if not ctx.cxx(os.path.join(ROOT, 'harness/c12_seqbuf.c'), exe, 'asan'):
+        return
+    lines = []
+    for n in (0, 1, 2, 3, 7, 64):
+        for sz in (0, 1):
+            for sm in (0, 1):
+                for dz in (0, 1):
+                    for dm in (0, 1):
+                        lines.append('%d %d %d %d %d %d' % (n, sz, sm, dz, dm, ctx.rng.randint(1, 2 ** 31 - 1)))
+    out = ctx.run_lines([exe], lines, timeout=300, line_timeout=20)
+    nbad = 0
+    for l, o in zip(lines, out):
+        ctx.count(('seqbuf', l), not l.startswith('0 '))
+        if o.strip() == 'OK':
+            continue
+        nbad += 1
+        if nbad <= 4:
+            n, sz, sm, dz, dm, sd = l.split()
+            ctx.violation('seqbuf_%s' % l.replace(' ', '_'),
+                          dict(call='GEOSCoordSeq_copyFromBuffer_r(n=%s, hasZ=%s, hasM=%s) then GEOSCoordSeq_copyToBuffer_r(hasZ=%s, hasM=%s)' % (n, sz, sm, dz, dm), input_line=l, implementation=o.strip(),
+                               expected='return 1 with every slot equal to GEOSCoordSeq_getOrdinate_r of that dimension (NaN for a dimension the sequence lacks), canaries and source untouched',
+                               replay='echo "%s" | %s' % (l, exe)),
+                          msg='coordinate-sequence buffer copy: ' + o.strip()[:200])
+    ctx.notes['seqbuf_cases'] = len(lines)
+
+
 def run(ctx):
     from props.C11 import run_cases, _run_chunk
     quick = ctx.quick
@@ -261,6 +292,7 @@ def run(ctx):
     hexe = os.path.join(BUILD, 'bin', 'c12_asan')
     if not ok_asan or not drv or not ctx.cxx(os.path.join(ROOT, 'harness/c12.cpp'), hexe, 'asan', extra='-ldl -rdynamic'):
         return
+    seqbuf(ctx)
     nprog = 2500 if quick else 15000
     seeds = []
     corpus = os.path.join(ROOT, 'gen/corpus/C12.txt')
